@@ -131,8 +131,8 @@ def run_scenario(sc, base, fast=True, mode='each', real_passes=None, on_test=Non
                         with open(user, 'wb') as fh:       # undo, so that the run stays comparable
                             fh.write(user_before)
         if out == 'norun':
-            if 'cvise-sanity-' in cwd:
-                return 1      # the fault is scripted for worker processes only
+            if 'cvise-sanity-' in cwd and not sc.get('sanity_fault'):
+                return 1      # the fault is scripted for worker processes only (unless the scenario asks for it)
             raise OSError(11, 'scripted: the test process could not be started')
         return rc
 
